@@ -312,3 +312,76 @@ def padded_upload(seed):
         return desc, [(f"padded upload: {sent} of {frames} frames could be sent, {len(got)} of {frames * size} bytes delivered, "
                        f"response ended x{sess.ended.get(1, 0)}", "c01h2:padded-upload-stalled")]
     return desc, []
+
+
+def trailers_case(seed):
+    """http.response.trailers on HTTP/2: delivered after the whole body, ending the stream, to a client that sent te: trailers;
+    not emitted otherwise."""
+    import random
+
+    import h2.config
+    import h2.connection
+    import h2.events
+
+    from . import rig as R
+
+    rng = random.Random(seed)
+    size = rng.choice([0, 1, 3000, 70000, 100000])
+    te = rng.random() < 0.7
+    worker = rng.choice(["asyncio", "trio"])
+    trailers = rng.choice([[(b"x-t", b"1")], [(b"x-checksum", b"abc"), (b"x-t", b"2")]])
+    chunks = [size] if size < 50000 else [size // 2, size - size // 2]
+    d = S.Driver(seed=seed, policy=rng.choice(["fifo", "random"]))
+    cfg = R.make_config(())
+    cfg._log = R.RecLog([])
+    recs = []
+    steps = [("recv_all",), ("send", {"type": "http.response.start", "status": 200, "headers": [(b"x-a", b"b")], "trailers": True})]
+    for i, n in enumerate(chunks):
+        steps.append(("send", {"type": "http.response.body", "body": b"y" * n, "more_body": i < len(chunks) - 1}))
+    steps.append(("send", {"type": "http.response.trailers", "headers": trailers, "more_trailers": False}))
+    rig = S.ProtoRig(S.scripted_app([steps], recs, d), cfg, d, alpn="h2", ssl=True, worker=worker)
+    c = h2.connection.H2Connection(h2.config.H2Configuration(client_side=True, header_encoding=None))
+    c.initiate_connection()
+    c.send_headers(1, [(b":method", b"GET"), (b":path", b"/t"), (b":scheme", b"https"), (b":authority", b"x")] + ([(b"te", b"trailers")] if te else []),
+                   end_stream=True)
+    rig.feed(c.data_to_send())
+    rig.run()
+    cons, order, got, seen_tr, err = 0, [], 0, None, None
+    for _ in range(40):
+        w = bytes(rig.transport.written)
+        new, cons = w[cons:], len(w)
+        if not new:
+            break
+        try:
+            for e in c.receive_data(new):
+                if isinstance(e, h2.events.DataReceived):
+                    got += len(e.data)
+                    order.append("data")
+                    c.acknowledge_received_data(e.flow_controlled_length, e.stream_id)
+                elif isinstance(e, h2.events.TrailersReceived):
+                    seen_tr = list(e.headers)
+                    order.append("trailers")
+                elif isinstance(e, h2.events.StreamEnded):
+                    order.append("end")
+                elif isinstance(e, h2.events.StreamReset):
+                    order.append("reset")
+        except Exception as ex:  # noqa: BLE001
+            err = repr(ex)
+            break
+        out = c.data_to_send()
+        if out:
+            rig.feed(out)
+        rig.run()
+    desc = {"seed": seed, "h2": {"trailers_case": {"size": size, "te": te, "worker": worker, "order": [k for i, k in enumerate(order) if i == 0 or order[i - 1] != k],
+                                                   "trailers": repr(seen_tr), "body": got}}}
+    fails = []
+    stuck = [t.name for t in d.tasks if t.name.startswith("app") and not t.done]
+    if err or stuck or d.errors():
+        fails.append((f"client error {err}, stuck {stuck}, task errors {d.errors()[:1]}", "c02h2:trailers-session"))
+    elif got != size or order.count("end") != 1 or "reset" in order:
+        fails.append((f"body {got} of {size} bytes, END_STREAM x{order.count('end')}, order {desc['h2']['trailers_case']['order']}", "c02h2:trailers-body"))
+    elif te and (seen_tr != trailers or order[-2:] != ["trailers", "end"]):
+        fails.append((f"trailers {seen_tr!r} (expected {trailers!r}), order {desc['h2']['trailers_case']['order']}", "c02h2:trailers-missing"))
+    elif not te and seen_tr is not None:
+        fails.append(("trailers emitted to a client that did not send te: trailers", "c02h2:trailers-unasked"))
+    return desc, fails
